@@ -4,8 +4,10 @@ import (
 	"bytes"
 	"context"
 	"fmt"
+	"os"
 	"os/exec"
 	"regexp"
+	"strconv"
 	"strings"
 	"sync"
 	"time"
@@ -194,6 +196,9 @@ func solveAll(results []*FuncResult, cfg solveCfg) {
 	}
 	ch := make(chan job)
 	var wg sync.WaitGroup
+	if v, err := strconv.Atoi(os.Getenv("GOVC_WORKERS")); err == nil && v > 0 && v < cfg.workers {
+		cfg.workers = v // development aid: several sweeps sharing one machine
+	}
 	for w := 0; w < cfg.workers; w++ {
 		wg.Add(1)
 		go func() {
